@@ -35,7 +35,7 @@ Theorem fresh_ids : forall s o, Inv s -> forall x, In x (live (step_state s o)) 
 Proof.
   intros s o I x Hx. destruct (step_state_cases s o) as [(evs & H)|E]; [|rewrite E in Hx; left; eauto].
   pose proof (exec_rel _ _ _ _ I H) as [TX _ _ _ _ _ _]. set (s' := step_state s o) in *. clearbody s'.
-  destruct TX as [o0 P E _ | o0 sender dest amount fee token Hs P Hin E | id who x0 Hin Hid Hsn P E | id who add token which x0 L Hin Hid Ha P P' Hin' E | token nonce h b Hb Ht Hn P E].
+  destruct TX as [o0 P E _ | o0 sender dest amount fee token Hs P Hin E | id who x0 Hin Hid Hsn P E | o1 id who add token x0 L Hfi Hin Hid Ha P P' Hin' E | token nonce h b Hb Ht Hn P E].
   - left. exists x. split; auto. eapply perm_in; eauto.
   - apply (perm_in _ _ _ _ P) in Hx. destruct Hx as [<-|Hx]; [right|left; eauto].
     simpl. repeat split; auto. { intros y Hy. apply (inv_idlt _ I); auto. } eauto 6.
@@ -150,7 +150,7 @@ Theorem leaves_only_by : forall s o s' evs x, Inv s -> accepted s o s' evs -> In
 Proof.
   intros s o s' evs x I A Hx NL. apply accepted_exec in A.
   pose proof (exec_rel _ _ _ _ I A) as [TX _ _ _ _ _ _].
-  destruct TX as [o0 P E _ | o0 sender dest amount fee token Hs P Hin E | id who x0 Hin Hid Hsn P E | id who add token which x0 L Hin Hid Ha P P' Hin' E | token nonce h b Hb Ht Hn P E].
+  destruct TX as [o0 P E _ | o0 sender dest amount fee token Hs P Hin E | id who x0 Hin Hid Hsn P E | o1 id who add token x0 L Hfi Hin Hid Ha P P' Hin' E | token nonce h b Hb Ht Hn P E].
   - exfalso. apply NL. unfold is_live, ids. apply in_map. eapply perm_in; [apply Permutation_sym; eauto|auto].
   - exfalso. apply NL. unfold is_live, ids. apply in_map. eapply perm_in; [apply Permutation_sym; eauto|simpl; auto].
   - apply (perm_in _ _ _ _ P) in Hx. destruct Hx as [->|Hx]; [left; subst; auto|].
@@ -199,11 +199,11 @@ Theorem payload_preserved : forall s o s' evs, Inv s -> accepted s o s' evs -> f
   In x' (live s) \/
   (exists sender dest amount fee token, is_send o sender dest amount fee token /\ 0 < amount /\ 0 <= fee /\
       x' = mk_tx (next_tx s) sender dest token amount fee /\ In x' (pool s')) \/
-  (exists x who add token which, In x (pool s) /\ o = IncreaseFee (tx_id x) who add token which /\ 0 < add /\
+  (exists x who add token, In x (pool s) /\ is_fee_inc o (tx_id x) who add token /\ 0 < add /\
       x' = with_fee x (tx_fee x + add) /\ In x' (pool s')).
 Proof.
   intros s o s' evs I A x' Hx'. apply accepted_exec in A.
-  pose proof (exec_rel _ _ _ _ I A) as [TX _ _ _ _ _ _]. destruct TX as [o0 P E _ | o0 sender dest amount fee token Hs P Hin E | id who x0 Hin Hid Hsn P E | id who add token which x0 L Hin Hid Ha P P' Hin' E | token nonce h b Hb Ht Hn P E].
+  pose proof (exec_rel _ _ _ _ I A) as [TX _ _ _ _ _ _]. destruct TX as [o0 P E _ | o0 sender dest amount fee token Hs P Hin E | id who x0 Hin Hid Hsn P E | o1 id who add token x0 L Hfi Hin Hid Ha P P' Hin' E | token nonce h b Hb Ht Hn P E].
   - left. eapply perm_in; eauto.
   - apply (perm_in _ _ _ _ P) in Hx'. destruct Hx' as [<-|Hx']; auto. right; left.
     exists sender, dest, amount, fee, token. destruct Hs as [->| ->]; simpl in A.
@@ -211,7 +211,7 @@ Proof.
     + destruct (send_p_spec _ _ _ _ _ _ _ _ A) as (Ha & Hf & _). repeat split; auto. right; reflexivity.
   - left. eapply perm_in; [apply Permutation_sym; eauto|]. simpl; auto.
   - apply (perm_in _ _ _ _ P') in Hx'. destruct Hx' as [<-|Hx'].
-    + right; right. exists x0, who, add, token, which. subst id. auto.
+    + right; right. exists x0, who, add, token. subst id. auto.
     + left. eapply perm_in; [apply Permutation_sym; eauto|]. simpl; auto.
   - left. eapply perm_in; [apply Permutation_sym; eauto|]. apply in_or_app; auto.
 Qed.
@@ -220,17 +220,17 @@ Qed.
 Theorem live_preserved : forall s o s' evs, Inv s -> accepted s o s' evs -> forall x, In x (live s) ->
   In x (live s') \/
   (o = Cancel (tx_id x) (tx_sender x) /\ In x (pool s)) \/
-  (exists who add token which, o = IncreaseFee (tx_id x) who add token which /\ In x (pool s) /\
+  (exists who add token, is_fee_inc o (tx_id x) who add token /\ In x (pool s) /\
       In (with_fee x (tx_fee x + add)) (pool s')) \/
   (exists h b, o = BatchExecuted (b_token b) (b_nonce b) h /\ In b (batches s) /\ In x (b_txs b)).
 Proof.
   intros s o s' evs I A x Hx. apply accepted_exec in A.
-  pose proof (exec_rel _ _ _ _ I A) as [TX _ _ _ _ _ _]. destruct TX as [o0 P E _ | o0 sender dest amount fee token Hs P Hin E | id who x0 Hin Hid Hsn P E | id who add token which x0 L Hin Hid Ha P P' Hin' E | token nonce h b Hb Ht Hn P E].
+  pose proof (exec_rel _ _ _ _ I A) as [TX _ _ _ _ _ _]. destruct TX as [o0 P E _ | o0 sender dest amount fee token Hs P Hin E | id who x0 Hin Hid Hsn P E | o1 id who add token x0 L Hfi Hin Hid Ha P P' Hin' E | token nonce h b Hb Ht Hn P E].
   - left. eapply perm_in; [apply Permutation_sym; eauto|auto].
   - left. eapply perm_in; [apply Permutation_sym; eauto|simpl; auto].
   - apply (perm_in _ _ _ _ P) in Hx. destruct Hx as [->|Hx]; auto. right; left. subst. auto.
   - apply (perm_in _ _ _ _ P) in Hx. destruct Hx as [->|Hx].
-    + right; right; left. exists who, add, token, which. subst id. auto.
+    + right; right; left. exists who, add, token. subst id. auto.
     + left. eapply perm_in; [apply Permutation_sym; eauto|simpl; auto].
   - apply (perm_in _ _ _ _ P) in Hx. apply in_app_or in Hx. destruct Hx as [Hx|Hx]; auto.
     right; right; right. exists h, b. subst. auto.
@@ -284,6 +284,29 @@ Proof. unfold user_key, MODULE, ERC20MOD; intros; lia. Qed.
 
 Ltac notmod Uk := let U1 := fresh in let U2 := fresh in destruct (user_not_module _ Uk) as [U1 U2]; ((apply U1; reflexivity) || (apply U2; reflexivity)).
 
+(* ---------- a decision procedure for ledger goals ---------- *)
+Lemma debit_inv : forall l k v l', debit l k v = ROk l' -> v <= get_bal l k /\ l' = (k, get_bal l k - v) :: l.
+Proof.
+  unfold debit; intros l k v l' H. destruct (get_bal l k <? v) eqn:E; [discriminate|]. inv H.
+  apply Z.ltb_ge in E. auto.
+Qed.
+
+Ltac led_cases :=
+  repeat match goal with
+         | |- context [Z.eqb ?a ?b] => destruct (Z.eqb_spec a b); subst; cbn [andb]
+         | H : context [Z.eqb ?a ?b] |- _ => destruct (Z.eqb_spec a b); subst; cbn [andb] in H
+         end.
+(* unfold every debit / credit of the hypotheses and the goal, then decide the key comparisons *)
+Ltac led :=
+  unfold MODULE, ERC20MOD in *;
+  repeat match goal with
+         | H : bind _ _ = ROk _ |- _ => apply bind_ok in H; destruct H as (? & ? & H)
+         | H : ROk _ = ROk _ |- _ => inv H
+         | H : debit _ _ _ = ROk _ |- _ => apply debit_inv in H; destruct H as [? H]; match type of H with ?v = _ => first [is_var v; subst v | rewrite H in *; clear H] end
+         end;
+  repeat match goal with H : ?a = bal ?s |- _ => rewrite <- H in * end;
+  unfold credit; cbn [get_bal]; unfold key_eqb; led_cases; try lia; try congruence.
+
 (* a cancel pays exactly amount + fee to the creator and touches no other user balance: base coins in the bank for a
    transfer made by MsgSendToExternal (or from the EVM with FX), ERC-20 tokens for a transfer started from the EVM with an
    ERC-20 token (the one that carries an erc20 outgoing relation) *)
@@ -299,32 +322,16 @@ Proof.
   intros s id who s' evs I NM A. apply accepted_exec in A. simpl in A.
   destruct (cancel_spec _ _ _ _ _ (inv_pool_nodup _ I) A)
     as (x & Hin & Hid & Hs & _ & _ & _ & _ & _ & _ & _ & _ & _ & k & l & _ & B & R).
-  assert (NM' : who <> MODULE) by (unfold MODULE; lia). assert (NE : who <> ERC20MOD) by (unfold ERC20MOD; lia).
   exists x. split; auto. split; auto. split; auto. unfold refund_component.
   destruct (existsb (Z.eqb id) (relation s)) eqn:Rl.
-  - destruct R as [Hk Er]. unfold hook_refund in Hk. destruct k; try discriminate.
-    unfold bridge_to_base in B. inv B. mon. destruct (get_debit _ _ _ _ H) as (_ & _ & O).
-    repeat split.
-    + rewrite get_credit_same, get_credit_other, O, !get_credit_other; auto; intro E0; inv E0; auto.
-    + intros k Uk Nk. destruct (user_not_module _ Uk) as [U1 U2].
-      rewrite get_credit_other; auto. rewrite get_credit_other; [|intro E0; subst k; apply U2; reflexivity].
-      destruct (key_eqb k (tx_sender x, tx_token x, 0)) eqn:Ek.
-      * apply key_eqb_eq in Ek. subst k.
-        destruct (get_debit _ _ _ _ H) as (_ & D & _). rewrite D, get_credit_same, get_credit_other; [lia|].
-        intro E0; inv E0; auto.
-      * rewrite O; [|intro E0; subst k; rewrite key_eqb_refl in Ek; discriminate].
-        rewrite !get_credit_other; auto; intro E0; subst k;
-          first [rewrite key_eqb_refl in Ek; discriminate | apply U1; reflexivity | apply U2; reflexivity].
+  - destruct R as [Hk Er]. split; [|split].
+    + unfold hook_refund in Hk. unfold bridge_to_base in B. destruct k; try discriminate; led.
+    + intros [[a t'] w'] Uk Nk. unfold user_key in Uk. simpl in Uk.
+      unfold hook_refund in Hk. unfold bridge_to_base in B. destruct k; try discriminate; led.
     + rewrite Er. intro F. apply filter_In in F. destruct F as [_ F]. rewrite Z.eqb_refl in F. discriminate.
-  - destruct R as [-> Er]. repeat split.
-    + unfold bridge_to_base in B. destruct k; mon; try (destruct (get_debit _ _ _ _ H) as (_ & _ & O)).
-      * rewrite get_credit_same, O; auto. intro E0; inv E0; auto.
-      * rewrite get_credit_same, O; auto. intro E0; inv E0; auto.
-      * rewrite get_credit_same, get_credit_other; auto. intro E0; inv E0; auto.
-    + intros k0 Uk Nk. unfold bridge_to_base in B. destruct k; mon; try (destruct (get_debit _ _ _ _ H) as (_ & _ & O)).
-      * rewrite get_credit_other, O; auto. intro E0; subst k0; notmod Uk.
-      * rewrite get_credit_other, O; auto. intro E0; subst k0; notmod Uk.
-      * rewrite !get_credit_other; auto. intro E0; subst k0; notmod Uk.
+  - destruct R as [-> Er]. split; [|split].
+    + unfold bridge_to_base in B. destruct k; led.
+    + intros [[a t'] w'] Uk Nk. unfold user_key in Uk. simpl in Uk. unfold bridge_to_base in B. destruct k; led.
     + rewrite Er. intro F. apply existsb_z in F. congruence.
 Qed.
 
@@ -342,21 +349,40 @@ Proof.
   intros s id who add token which s' evs I NM A. apply accepted_exec in A. simpl in A.
   destruct (increase_spec _ _ _ _ _ _ _ _ (inv_pool_nodup _ I) A)
     as (Ha & x & L & Hin & Hid & Ht & P & P' & Eb & Ec & Et & Enb & Enc & Eo & Ev & _ & k & _ & B).
-  assert (NM' : who <> MODULE) by (unfold MODULE; lia).
   repeat split; auto.
-  - unfold pay_added_fee in B. destruct k; mon.
-    + destruct (get_debit _ _ _ _ H) as (_ & D & O). exists 0. split.
-      * rewrite get_credit_other, D; auto. intro E; inv E; auto.
-      * intros k Uk Nk. rewrite get_credit_other, O; auto. intro E; subst k; notmod Uk.
-    + destruct (get_debit _ _ _ _ B) as (_ & D & O). exists 1. split; auto.
-    + destruct (get_debit _ _ _ _ B) as (_ & D & O). exists 1. split; auto.
+  - unfold pay_added_fee in B. destruct k; [exists 0 | exists 1 | exists 1 | exists 1]; split;
+      try (intros [[a t'] w'] Uk Nk; unfold user_key in Uk; simpl in Uk); led.
+  - exists x, L. auto.
+Qed.
+
+(* the same through the increaseBridgeFee precompile: the payer pays exactly the added fee in the form it was offered in
+   (FX from the bank, a token as ERC-20), no other user balance moves, nothing else changes *)
+Definition offered_component (k : tkind) : Z := match k with KNative => 0 | _ => 2 end.
+
+Theorem fee_exact_p : forall s id who add token s' evs, Inv s -> 0 <= who ->
+  accepted s (IncreaseFeeP id who add token) s' evs ->
+  0 < add /\
+  (exists k, kind_of (toks s) token = Some k /\
+     get_bal (bal s') (who, token, offered_component k) = get_bal (bal s) (who, token, offered_component k) - add /\
+     forall k0, user_key k0 -> k0 <> (who, token, offered_component k) -> get_bal (bal s') k0 = get_bal (bal s) k0) /\
+  (exists x L, In x (pool s) /\ tx_id x = id /\ tx_token x = token /\
+     Permutation (pool s) (x :: L) /\ Permutation (pool s') (with_fee x (tx_fee x + add) :: L)) /\
+  batches s' = batches s /\ calls s' = calls s /\ relation s' = relation s /\
+  next_tx s' = next_tx s /\ next_batch s' = next_batch s /\ next_call s' = next_call s /\ obs_ext s' = obs_ext s /\ evs = [].
+Proof.
+  intros s id who add token s' evs I NM A. apply accepted_exec in A. simpl in A.
+  destruct (increase_p_spec _ _ _ _ _ _ _ (inv_pool_nodup _ I) A)
+    as (Ha & x & L & Hin & Hid & Ht & P & P' & Eb & Ec & Et & Enb & Enc & Eo & Ev & Er & _ & k & K & B).
+  repeat split; auto.
+  - exists k. split; auto. unfold fee_in, erc20_in, pay_added_fee in B. destruct k; try discriminate; cbn [offered_component]; split;
+      try (intros [[a t'] w'] Uk Nk; unfold user_key in Uk; simpl in Uk); led.
   - exists x, L. auto.
 Qed.
 
 (* a refund of an outgoing bridge call credits the REFUND address with exactly the locked amount of every token:
    in the bank for a call created by MsgBridgeCall, as ERC-20 tokens for a call created by the precompile *)
 Definition refund_which (k : tkind) (msg : bool) : Z :=
-  match k with KNative => 0 | KExt => 1 | KCoin => if msg then 0 else 2 end.
+  match k with KNative => 0 | KExt => 1 | KCoin | KErc => if msg then 0 else 2 end.
 
 Lemma refund_coins_other : forall ts msg coins l r l', refund_coins ts msg l r coins = ROk l' ->
   forall k, user_key k -> fst (fst k) <> r -> get_bal l' k = get_bal l k.
@@ -368,6 +394,8 @@ Proof.
     rewrite get_credit_other, O; auto; intro E; subst k; simpl in *; auto.
   - destruct msg; [|discriminate]. rewrite (IH _ _ _ H k Uk Nk). rewrite get_credit_other; auto. intro E; subst k; simpl in *; auto.
   - destruct msg; rewrite (IH _ _ _ H k Uk Nk); rewrite !get_credit_other; auto; intro E; subst k; simpl in *; auto.
+  - mon. destruct k as [[a0 t0] w0]. unfold user_key in Uk. simpl in Uk, Nk.
+    destruct msg; mon; rewrite (IH _ _ _ H (a0, t0, w0)); auto; led.
 Qed.
 
 Fixpoint credited (ts : list (Z * tkind)) (msg : bool) (coins : list (Z * Z)) (t w : Z) : Z :=
@@ -403,6 +431,9 @@ Proof.
     + destruct msg.
       * apply (G _ 0 H). intros k' Ek. rewrite get_credit_other; auto. intro E; subst k'; simpl in Ek; congruence.
       * apply (G _ 2 H). intros k' Ek. rewrite !get_credit_other; auto; intro E; subst k'; simpl in Ek; congruence.
+    + mon. destruct msg; mon.
+      * apply (G _ 0 H). intros [[a1 t1] w1] Ek. simpl in Ek. subst a1. led.
+      * apply (G _ 2 H). intros [[a1 t1] w1] Ek. simpl in Ek. subst a1. led.
 Qed.
 
 Lemma coins_valid_in : forall coins prev t a, coins_valid prev coins = true -> In (t, a) coins -> prev < t /\ 0 < a.
@@ -447,7 +478,7 @@ Proof.
     assert (K : exists kd, kind_of (toks s) t = Some kd).
     { clear -R Hin. revert R. generalize (bal s). induction (c_tokens c) as [|[t0 a0] rest IH]; simpl; intros l R; [contradiction|].
       destruct (kind_of (toks s) t0) as [kd|] eqn:K; [|discriminate]. destruct Hin as [E|Hin]; [inv E; eauto|].
-      destruct (a0 <=? 0); [eauto|]. destruct kd; [mon; eauto | destruct (existsb _ _); [eauto|discriminate] | destruct (existsb _ _); eauto]. }
+      destruct (a0 <=? 0); [eauto|]. destruct kd; [mon; eauto | destruct (existsb _ _); [eauto|discriminate] | destruct (existsb _ _); eauto | mon; destruct (existsb _ _); mon; eauto]. }
     destruct K as (kd & K). exists kd. split; auto.
     rewrite (refund_coins_sum _ _ _ _ _ _ NM R). f_equal. eapply credited_valid; eauto.
   - intros k Uk Nk. eapply refund_coins_other; eauto.
